@@ -170,12 +170,7 @@ func (fs LocalFileSystem) Create(ctx context.Context, name string, body io.ReadC
 
 	wc, err := os.Create(p)
 	if err != nil {
-		err = errFromOS(err)
-		if internal.IsNotFound(err) {
-			// The parent collection doesn't exist
-			err = NewHTTPError(http.StatusConflict, err)
-		}
-		return nil, false, err
+		return nil, false, errFromOSDest(err)
 	}
 	defer wc.Close()
 
@@ -246,6 +241,17 @@ func checkCopyMove(srcPath, dstPath string) error {
 	return nil
 }
 
+// errFromOSDest is like errFromOS for an operation which creates the
+// destination of a COPY, MOVE or PUT: if the destination cannot be found, its
+// parent collection is missing, which is a conflict.
+func errFromOSDest(err error) error {
+	err = errFromOS(err)
+	if internal.IsNotFound(err) {
+		return NewHTTPError(http.StatusConflict, err)
+	}
+	return err
+}
+
 func copyRegularFile(src, dst string, perm os.FileMode) error {
 	srcFile, err := os.Open(src)
 	if err != nil {
@@ -254,18 +260,16 @@ func copyRegularFile(src, dst string, perm os.FileMode) error {
 	defer srcFile.Close()
 
 	dstFile, err := os.OpenFile(dst, os.O_RDWR|os.O_CREATE|os.O_TRUNC, perm)
-	if os.IsNotExist(err) {
-		return NewHTTPError(http.StatusConflict, err)
-	} else if err != nil {
-		return errFromOS(err)
+	if err != nil {
+		return errFromOSDest(err)
 	}
 	defer dstFile.Close()
 
 	if _, err := io.Copy(dstFile, srcFile); err != nil {
-		return err
+		return errFromOS(err)
 	}
 
-	return dstFile.Close()
+	return errFromOS(dstFile.Close())
 }
 
 func (fs LocalFileSystem) Copy(ctx context.Context, src, dst string, options *CopyOptions) (created bool, err error) {
@@ -283,8 +287,8 @@ func (fs LocalFileSystem) Copy(ctx context.Context, src, dst string, options *Co
 	}
 
 	if _, err := os.Stat(dstPath); err != nil {
-		if !os.IsNotExist(err) {
-			return false, errFromOS(err)
+		if err := errFromOS(err); !internal.IsNotFound(err) {
+			return false, err
 		}
 		created = true
 	} else {
@@ -298,7 +302,7 @@ func (fs LocalFileSystem) Copy(ctx context.Context, src, dst string, options *Co
 
 	err = filepath.Walk(srcPath, func(p string, fi os.FileInfo, err error) error {
 		if err != nil {
-			return err
+			return errFromOS(err)
 		}
 
 		// Copy each member to the same place below the destination
@@ -311,7 +315,7 @@ func (fs LocalFileSystem) Copy(ctx context.Context, src, dst string, options *Co
 		perm := fi.Mode() & os.ModePerm
 		if fi.IsDir() {
 			if err := os.Mkdir(dstPath, perm); err != nil {
-				return errFromOS(err)
+				return errFromOSDest(err)
 			}
 		} else {
 			if err := copyRegularFile(p, dstPath, perm); err != nil {
@@ -325,7 +329,7 @@ func (fs LocalFileSystem) Copy(ctx context.Context, src, dst string, options *Co
 		return nil
 	})
 	if err != nil {
-		return false, errFromOS(err)
+		return false, err
 	}
 
 	return created, nil
@@ -346,8 +350,8 @@ func (fs LocalFileSystem) Move(ctx context.Context, src, dst string, options *Mo
 	}
 
 	if _, err := os.Stat(dstPath); err != nil {
-		if !os.IsNotExist(err) {
-			return false, errFromOS(err)
+		if err := errFromOS(err); !internal.IsNotFound(err) {
+			return false, err
 		}
 		created = true
 	} else {
@@ -360,7 +364,7 @@ func (fs LocalFileSystem) Move(ctx context.Context, src, dst string, options *Mo
 	}
 
 	if err := os.Rename(srcPath, dstPath); err != nil {
-		return false, errFromOS(err)
+		return false, errFromOSDest(err)
 	}
 
 	return created, nil
